@@ -25,7 +25,8 @@ class Local(Backend):
         destination = self.path / name
         destination.parent.mkdir(parents=True, exist_ok=True)
 
-        shortened_name = destination.name[:240]
+        # The limit applies to the encoded name, and characters may take several bytes
+        shortened_name = os.fsdecode(os.fsencode(destination.name)[:240])
         # Make sure the temporary is on the same filesystem to make
         # atomic replacements possible
         temp = Path(
